@@ -20,7 +20,7 @@ func init() {
 		Assume: []string{"error codes/messages are not compared (OK vs not OK only)", "an empty mutation list may fail or be a no-op", "family order inside a row is unspecified and canonicalised"},
 		Run:    runC01,
 	})
-	expectedProbes["C01"] = []string{"c01.invalid_rejected", "c01.server_ts", "c01.restart", "c01.entry_failed", "c01.full_compare"}
+	expectedProbes["C01"] = []string{"c01.invalid_rejected", "c01.server_ts", "c01.restart", "c01.entry_failed", "c01.full_compare", "c01.very_long_mutation_list"}
 }
 
 func pickEngine(r *Run, cfg *Stream) string {
@@ -45,6 +45,7 @@ func runC01(r *Run) {
 	model := newBTModel()
 	gen := &btGen{fams: []string{"f1", "f2"}, unknown: "nofam", bigVals: true}
 	ps := r.T.S("prog.0")
+	bigLists := cfg.Intn(5) == 4 // one run in five carries very long mutation lists
 
 	create := btOp{Kind: "CreateTable", Parent: "projects/p/instances/i", TableID: "t", Fams: map[string]*btapbGc{"f1": nil, "f2": nil}}
 	if k, msg := model.step(create, execOp(w, create), clk.ServerUs); k != "" {
@@ -66,7 +67,21 @@ func runC01(r *Run) {
 		clockStep(r, clk, true)
 		d := record(ps, 80)
 		var op btOp
-		if d.w(3, 2) == 0 {
+		if bigLists && d.n(12) == 11 {
+			// a very long mutation list (a bulk load in one request), valid or failing near
+			// its end: the size at which an implementation might start to work in slices is
+			// not assumed, lengths are drawn around several powers of two and of ten
+			n := []int{500, 1000, 1024, 2048, 4096}[d.n(5)] + d.n(3)
+			var muts mutList
+			for k := 0; k < n; k++ {
+				muts = append(muts, setCell("f1", fmt.Sprintf("b%04d", k%700), int64(1+k/700)*1000, fmt.Sprintf("x%d.%d", i, k)))
+			}
+			if d.n(2) == 1 {
+				muts = append(muts, setCell("nofam", "q", 1000, "bad"))
+			}
+			r.Probe("c01.very_long_mutation_list")
+			op = btOp{Kind: "MutateRow", Table: tbl, Key: btRowKeys[d.n(len(btRowKeys))], Muts: muts}
+		} else if d.w(3, 2) == 0 {
 			op = btOp{Kind: "MutateRow", Table: tbl, Key: btRowKeys[d.n(len(btRowKeys))], Muts: gen.mutations(d, 4, true)}
 		} else {
 			op = btOp{Kind: "MutateRows", Table: tbl}
